@@ -69,6 +69,7 @@ def main(chk):
                 for (data, op, construct) in mutate.p21_mutants(base, rng, n_tok if not ws else n_tok // 2, n_trunc if not ws else n_trunc // 4):
                     cases.append((lib, data, ws, op, construct))
     # seed-independent pathological shapes + exhaustive short parameter strings on the first library
+    lib0, pop0 = None, None
     if libs:
         lib0 = libs[0]
         rng0 = random.Random('c05-shapes')
@@ -87,9 +88,39 @@ def main(chk):
         if plib.fail is None:
             cases.append((plib, mutate._b(p.p21), False, 'probe', p.name))
 
+    # ---- scaling oracle: CPU time (the child's own user+sys time, independent of machine load) of size 4N vs size N.
+    # The step hooks only see instrumented loops; a super-linear cost inside a library call (std::string, strstr ...) shows here.
+    scaling = []
+    if libs and pop0 is not None and 'unfillable' not in pop0.tags:
+        N1, N2 = (6000, 24000) if quick else (20000, 80000)
+        for fam, mk in mutate.p21_scaling_families(lib0.schema, pop0):
+            scaling.append((fam, mk(N1), mk(N2)))
+
     def work(c):
         lib, data, ws, op, construct = c
         return c, run_one(lib, data, ws)
+
+    def work_scale(c):
+        fam, d1, d2 = c
+        return c, run_one(lib0, d1, False), run_one(lib0, d2, False)
+    for (fam, d1, d2), r1, r2 in run.pmap(work_scale, scaling, jobs=4):
+        chk.ev(2)
+        for r, d in ((r1, d1), (r2, d2)):
+            sym = symptom(r)
+            if sym and sym != 'timeout':
+                chk.violation('crash|scaling family: %s|%s' % (fam, sym), '%s at %d bytes' % (sym, len(d)), {'in.p21': d[:200000], 'stderr.txt': r.err[-4000:]})
+        if r1.cpu is None or r2.cpu is None or symptom(r1) or (symptom(r2) and symptom(r2) != 'timeout'):
+            continue
+        growth = (r2.cpu / max(r1.cpu, 0.02))
+        sizef = len(d2) / float(len(d1))
+        chk.seen('scaling', fam)
+        chk.count('scaling_families_judged')
+        chk.extra.setdefault('cpu_growth_for_4x_input', {})[fam] = round(growth, 2)
+        # linear = sizef (about 4); quadratic = 16.  Violation only when clearly super-linear AND the absolute cost is visible.
+        if (r2.timed_out or r2.cpu > 1.5) and growth > 2.2 * sizef:
+            chk.violation('super-linear|%s' % fam, 'CPU time %.2fs at %d bytes vs %.2fs at %d bytes: x%.1f for x%.1f input%s'
+                          % (r2.cpu, len(d2), r1.cpu, len(d1), growth, sizef, ' (larger run hit the watchdog)' if r2.timed_out else ''),
+                          {'small.p21': d1[:300000], 'schema.exp': lib0.schema.text()}, dict(family=fam))
     ratios = []
     sites = {}
     for (lib, data, ws, op, construct), r in run.pmap(work, cases):
